@@ -37,15 +37,15 @@ def run(ctx):
 
     # 3 (started first, runs beside 1 and 2): the xutils inputs
     pool = cf.ThreadPoolExecutor(max_workers=1)
-    ufut = pool.submit(ctx.tlc, "PathEvalUtilGen", "PathEvalUtilGen.cfg", workers=6, timeout=1500, heap="8g", consts={"MaxToks": prof["toks"], "WfMax": prof["wf"]})
+    ufut = pool.submit(ctx.tlc, "PathEvalUtilGen", "PathEvalUtilGen.cfg", workers=6, timeout=1500, heap="3g", consts={"MaxToks": prof["toks"], "WfMax": prof["wf"]})
 
     # 1. exhaustive model
-    ctx.tlc("PathEvalMC", "PathEvalMC.cfg", workers=12, timeout=1500, heap="10g", consts={"Fams": set_lit(prof["mc"])})
+    ctx.tlc("PathEvalMC", "PathEvalMC.cfg", workers=8, timeout=1500, heap="3g", consts={"Fams": set_lit(prof["mc"])})
 
     # 2. behaviours, replayed
-    g = ctx.tlc("PathEvalGen", "PathEvalGen.cfg", workers=12, timeout=1500, heap="10g",
+    g = ctx.tlc("PathEvalGen", "PathEvalGen.cfg", workers=8, timeout=1500, heap="2500m",
                 consts={"Fams": set_lit(fams), "NRand": 0})
-    g2 = ctx.tlc("PathEvalGen", "PathEvalGen.cfg", workers=1, timeout=1500, heap="6g",
+    g2 = ctx.tlc("PathEvalGen", "PathEvalGen.cfg", workers=1, timeout=1500, heap="2g",
                  consts={"Fams": "{100}", "NRand": prof["rand"], "RandKind": '"path"', "NChunks": 1}, extra=["-seed", str(ctx.seed)])
     vecs = sorted(os.path.join(d["dir"], f) for d in (g, g2) for f in os.listdir(d["dir"]) if re.match(r"pvec_\d+_\d+\.ndjson$", f))
     if not vecs:
